@@ -8,6 +8,8 @@ package main
 //	                                    assigns `c = timeout.C`
 //	waitReadRearm / waitWriteRearm      the `case <-s.chReadEvent` / `case <-s.chWriteEvent` body
 //	                                    ends in an unconditional `goto RESET_TIMER`
+//	waitReadDrains / waitWriteDrains    the same body stops the timer and drains timeout.C when Stop
+//	                                    reports false (needed under asynctimerchan=1)
 //	waitReadChain                       every successful return of Read is preceded, in its block,
 //	                                    by a call that re-notifies readers when data is left
 //	waitAcceptReloads                   AcceptKCP loads l.rd inside a loop (it does not: D8)
@@ -139,6 +141,56 @@ func factRearm(fd *ast.FuncDecl, ch string) bool {
 	return ok
 }
 
+// drains: the comm clause receiving from s.<ch> stops the timer and, when Stop reports false, takes a
+// value that may sit in timeout.C (`if !timeout.Stop() { select { case <-timeout.C: default: } }`) —
+// Model/Wait.lean `Thread.stopDrain` is the transcription of exactly this.
+func factDrains(fd *ast.FuncDecl, ch string) bool {
+	if fd == nil {
+		return false
+	}
+	ok := false
+	ast.Inspect(fd.Body, func(n ast.Node) bool {
+		cc, is := n.(*ast.CommClause)
+		if !is || cc.Comm == nil {
+			return true
+		}
+		es, is := cc.Comm.(*ast.ExprStmt)
+		if !is {
+			return true
+		}
+		ue, is := es.X.(*ast.UnaryExpr)
+		if !is || ue.Op != token.ARROW || !isSel(ue.X, "s", ch) {
+			return true
+		}
+		for _, st := range cc.Body {
+			ast.Inspect(st, func(m ast.Node) bool {
+				is2, isIf := m.(*ast.IfStmt)
+				if !isIf {
+					return true
+				}
+				neg, isNeg := is2.Cond.(*ast.UnaryExpr)
+				if !isNeg || neg.Op != token.NOT {
+					return true
+				}
+				call, isCall := neg.X.(*ast.CallExpr)
+				if !isCall || !isSel(call.Fun, "timeout", "Stop") {
+					return true
+				}
+				// the body must receive from timeout.C
+				ast.Inspect(is2.Body, func(k ast.Node) bool {
+					if u, isU := k.(*ast.UnaryExpr); isU && u.Op == token.ARROW && isSel(u.X, "timeout", "C") {
+						ok = true
+					}
+					return true
+				})
+				return true
+			})
+		}
+		return true
+	})
+	return ok
+}
+
 // chain: every block of Read that contains a successful return (`return x, nil`) also calls, before it,
 // a method that (transitively one level) calls notifyReadEvent.
 func factChain(p *pkgInfo, fd *ast.FuncDecl) bool {
@@ -224,6 +276,8 @@ func waitFacts(p *pkgInfo) string {
 	b("waitWriteRepoint", factRepoint(wr))
 	b("waitReadRearm", factRearm(rd, "chReadEvent"))
 	b("waitWriteRearm", factRearm(wr, "chWriteEvent"))
+	b("waitReadDrains", factDrains(rd, "chReadEvent"))
+	b("waitWriteDrains", factDrains(wr, "chWriteEvent"))
 	b("waitReadChain", factChain(p, rd))
 	b("waitAcceptReloads", factAcceptReloads(ac))
 	return sb.String()
